@@ -276,6 +276,10 @@ func (prop) Generate(rng *core.Rand, tier string, emit func(string)) {
 			emit(genProxy(prx))
 			continue
 		}
+		if k%12 == 9 {
+			emit(genKey(prx))
+			continue
+		}
 		pool := genPool(rng, tier)
 		chain := genChain(rng, pool)
 		leaf := chain[len(chain)-1]
